@@ -629,7 +629,7 @@ def _mat_of(t, env):
     return None
 
 
-def sphere_limit(check, prog):
+def sphere_limit(check, prog, fields=True):
     """E8: for a sphere, what Tmatrix hands on is the Lorenz-Mie amplitude matrix.
 
     ampld returns the amplitude matrix in the laboratory frame: for incidence
@@ -705,6 +705,8 @@ def sphere_limit(check, prog):
                   fail_detail='with the sphere form of the ampld outputs the block is %s '
                   '(c = cos phi, s = sin phi): calc_scat_matrix and Lens(Tmatrix) see a '
                   'matrix that depends on the azimuth' % fmt(block))
+    if not fields:
+        return
     # (b) raw_fields
     q2 = TMATRIX + '.raw_fields'
     fd2 = prog.func(q2)
